@@ -147,7 +147,20 @@ func RelOnlyModels(full, only *NormFile) []Issue {
 		out = append(out, Issue{Rule: "A-REL", Construct: "only-models emits functions, methods or variables", Msg: "--only-models output contains " + strings.Join(names, ", ")})
 	}
 	for _, im := range only.Imports {
-		if validationImports[im] {
+		// a package the type declarations themselves name (json.RawMessage through goJSONSchema.type) is needed by the models
+		short := im
+		if i := strings.Index(short, " ("); i >= 0 {
+			short = short[i+2 : len(short)-1]
+		} else if i := strings.LastIndexByte(short, '/'); i >= 0 {
+			short = short[i+1:]
+		}
+		usedByTypes := false
+		for _, t := range only.Types {
+			if strings.Contains(t, short+".") {
+				usedByTypes = true
+			}
+		}
+		if validationImports[im] && !usedByTypes {
 			out = append(out, Issue{Rule: "A-REL", Construct: "only-models imports a validation-support package", Msg: "--only-models output imports " + im + ", which only unmarshal/validation code uses (unused import: the file does not build)"})
 		}
 	}
